@@ -107,7 +107,7 @@ func Gen(t *rapid.T) Case {
 		hs := HookSpec{Name: fmt.Sprintf("h%d", h)}
 		hs.V0 = rapid.IntRange(0, 7).Draw(t, "v0") == 0
 		if rapid.IntRange(0, 2).Draw(t, "startup") > 0 {
-			o := rapid.SampledFrom([]int{1, 1, 5, 10}).Draw(t, "order")
+			o := rapid.SampledFrom([]int{0, 1, 1, 5, 10}).Draw(t, "order")
 			hs.OnStartup = &o
 			if rapid.IntRange(0, 4).Draw(t, "sfail") == 0 {
 				hs.StartupFails = 1
